@@ -51,6 +51,10 @@ Theorem C20_lexer_regexes_are_the_source : gen_regexes =
   [ ("Ident", "[A-Za-z_]([A-Za-z]|_|\d)*"); ("DecInt", "[1-9][0-9]*"); ("HexInt", "0[xX][0-9a-fA-F]+");
     ("BinInt", "0[bB][01]+"); ("OctInt", "0[0-7]*"); ("WS", "[ \t\r\f]+"); ("Comment", "#[^\n]*") ]%string.
 Proof. exact regexes_pinned. Qed.
+Theorem C20_header_lexer_regexes_are_the_source :
+  gen_header_regexes = [ ("SignalName", "[^ \t\r\f\n]+"); ("WS", "[ \t\r\f]+") ]%string /\
+  gen_header_tokens = [ ("Eol", "\n") ]%string.
+Proof. exact header_regexes_pinned. Qed.
 Theorem C20_keywords_are_the_source : keywords = gen_keywords.
 Proof. exact keywords_pinned. Qed.
 Theorem C20_punctuation_is_the_source : forallb (fun p =>
